@@ -123,7 +123,7 @@ def run(ctx):
     from deepproto.proto.tracepoint.v1.tracepoint_pb2 import TracePointConfig, Metric
     ctx.rule = ("EXHAUSTIVE over stage (absent, 6 valid, unknown) x method_name (absent/present) x span (absent, line, method, "
                 "other) x snapshot (absent, collect, no_collect, other) x log_msg (absent/present) x metrics (0/2) = 1024 rows, "
-                "with condition / fire_count / fire_period / frame_type / stack_type / an unknown key / 0-2 watches drawn per "
+                "with condition / fire_count / fire_period / frame_type / stack_type / an unknown key / 0-3 watches (in and out of alphabetical order, one repeated) drawn per "
                 "row, through the real build_trigger; response lists of 1-6 such tracepoints (shared locations, unknown "
                 "stages) through convert_response; registrations through add_custom. Non-trivial: an interpretable row.")
     ctx.assumptions = [
@@ -139,7 +139,7 @@ def run(ctx):
     for rep in range(reps):
         for (stage, mname, span, snap, log, nm) in rows:
             tp = dict(id="tp-%d" % len(all_tps), path=rng.choice(["a.py", "b.py"]), line=rng.choice([3, 7]),
-                      args=make_args(rng, stage, mname, span, snap, log), watches=rng.choice([[], ["a"], ["a", "b.c"]]), nmetrics=nm)
+                      args=make_args(rng, stage, mname, span, snap, log), watches=rng.choice([[], ["a"], ["a", "b.c"], ["b.c", "a"], ["t", "t", "c"]]), nmetrics=nm)
             all_tps.append(tp)
             metrics = [MetricDefinition("m%d" % k, "COUNTER") for k in range(nm)]
             j = dict(tp)
